@@ -28,8 +28,9 @@ type RawInput struct {
 	Segs      []hx.B `json:"segments"`  // client writes (udp: one datagram)
 	Reply     []hx.B `json:"reply"`     // backend's reply writes (udp: one datagram, none = no reply)
 	// a case that is one client of a concurrent scenario carries the whole scenario (replay runs it all)
-	Conc *ConcScenario `json:"concurrent,omitempty"`
-	Me   int           `json:"me,omitempty"`
+	DelayMs int           `json:"delay_ms,omitempty"` // the backend is late with its reply (streams)
+	Conc    *ConcScenario `json:"concurrent,omitempty"`
+	Me      int           `json:"me,omitempty"`
 }
 
 type RawObs struct {
@@ -152,7 +153,7 @@ func (e *env) runRaw(in RawInput) (RawObs, string) {
 	}
 	for _, rb := range []*rawBackend{e.rawBE, e.rawBE2} {
 		rb.mu.Lock()
-		rb.script = rawScript{Want: want, Reply: reply}
+		rb.script = rawScript{Want: want, Reply: reply, DelayMs: in.DelayMs}
 		rb.mu.Unlock()
 	}
 	for _, ub := range []*udpBackend{e.udpBE, e.udpBE2} {
@@ -507,6 +508,9 @@ func genRawInputs(o hx.Opts, r *hx.Rand) []RawInput {
 				in.Reply = append(in.Reply, hx.B(rep[:c]))
 				rep = rep[c:]
 			}
+		}
+		if in.Transport == "tcp" && r.Chance(1, 4) {
+			in.DelayMs = r.PickInt([]int{20, 50})
 		}
 		ins = append(ins, in)
 	}
